@@ -18,6 +18,7 @@ import (
 
 	"github.com/koordinator-sh/koordinator/apis/extension"
 	"github.com/koordinator-sh/koordinator/apis/thirdparty/scheduler-plugins/pkg/apis/scheduling/v1alpha1"
+	"github.com/koordinator-sh/koordinator/pkg/scheduler/apis/config"
 )
 
 // C03 harness: long generated histories against the real plugin
@@ -96,6 +97,7 @@ type c03Quota struct {
 }
 
 type c03Pod struct {
+	labelKind int // 0: quota label names the group; 1: names a group that does not exist; 2: no quota label
 	id       int
 	quota    int
 	np       bool
@@ -105,9 +107,15 @@ type c03Pod struct {
 	assigned bool
 }
 
+// c03Names overrides the generated group names (default-quota harness: 1 = default, 2 = system quota).
+var c03Names map[int]string
+
 func c03QName(id int) string {
 	if id == 0 {
 		return extension.RootQuotaName
+	}
+	if n, ok := c03Names[id]; ok {
+		return n
 	}
 	return fmt.Sprintf("q%d", id)
 }
@@ -136,6 +144,12 @@ func c03MakePod(r *vRand, p *c03Pod) *corev1.Pod {
 			Namespace: "ns", Name: fmt.Sprintf("p%d", p.id), UID: types.UID(fmt.Sprintf("uid-%d", p.id)),
 			Labels: map[string]string{extension.LabelQuotaName: c03QName(p.quota)},
 		},
+	}
+	switch p.labelKind {
+	case 1:
+		pod.Labels[extension.LabelQuotaName] = fmt.Sprintf("no-such-quota-%d", p.id)
+	case 2:
+		delete(pod.Labels, extension.LabelQuotaName)
 	}
 	if p.np {
 		pod.Labels[extension.LabelPreemptible] = "false"
@@ -245,6 +259,8 @@ type c03World struct {
 	rv     int
 	// closed-loop checks are claimed for histories that never lower max/min and reserve only admitted pods
 	closedLoop bool
+	// koordinator-default-quota / koordinator-system-quota: RefreshRuntime never writes their Runtime list
+	special map[int]bool
 }
 
 func (w *c03World) chain(q int) []int { // q, parent, ... (root excluded)
@@ -314,7 +330,9 @@ func (w *c03World) dump() {
 		}
 		u, n := c03FromList(s.Used), c03FromList(s.NonPreemptibleUsed)
 		w.h.Obs("q %d %s %s", id, vInts(u.v[:]), vInts(n.v[:]))
-		if !w.closedLoop {
+		if !w.closedLoop || (w.special[id] && w.cfgRT) {
+			// (default/system quota in runtime mode: used above max is the consequence of the known finding
+			// C03:default-quota-unlimited-in-runtime-mode, reported once, at the admission)
 			continue
 		}
 		q := w.quotas[id]
@@ -375,6 +393,10 @@ func (w *c03World) attempt(p *c03Pod) bool {
 			full := c03FromList(mgr.GetQuotaInfoByName(c03QName(g)).GetRuntime())
 			limFull[g] = full
 			q := w.quotas[g]
+			if w.special[g] {
+				// no `rt` op: the model must predict by itself that this list is never written
+				continue
+			}
 			if q.lastRT == nil || *q.lastRT != full {
 				w.h.Op("rt %d %s", g, full.toks())
 				w.dump()
@@ -427,7 +449,9 @@ func (w *c03World) attempt(p *c03Pod) bool {
 					continue
 				}
 				if used[d]+m[d] > lim.v[d] {
-					if i == 0 {
+					if i == 0 && w.special[g] && w.cfgRT {
+						w.h.Fail("C03:default-quota-unlimited-in-runtime-mode", "pod %d admitted to %s in runtime mode: dim %d used %d + req %d > max %d (its Runtime list is empty)", p.id, c03QName(g), d, used[d], m[d], lim.v[d])
+					} else if i == 0 {
 						w.h.Fail("C03:admitted-over-limit:leaf", "pod %d admitted: group %d dim %d used %d + req %d > limit %d (rt=%v)", p.id, g, d, used[d], m[d], lim.v[d], w.cfgRT)
 					} else if m[d] > 0 {
 						w.h.Fail("C03:admitted-over-limit:ancestor", "pod %d admitted: ancestor %d dim %d used %d + req %d > limit %d (rt=%v)", p.id, g, d, used[d], m[d], lim.v[d], w.cfgRT)
@@ -488,6 +512,7 @@ func TestVerifC03(t *testing.T) {
 	if h == nil {
 		t.Skip("VERIF_OUT not set")
 	}
+	c03Names = nil
 	n := h.N(120, 1000)
 	steps := 60
 	if h.Tier == "thorough" {
@@ -791,4 +816,169 @@ func (w *c03World) chainPlan(q int) []int {
 		q = w.quotas[q].parent
 	}
 	return out
+}
+
+// TestVerifC03Default: pods of koordinator-default-quota (label naming a group that does not exist, no label,
+// or the default quota's own name) and koordinator-system-quota, with finite DefaultQuotaGroupMax /
+// SystemQuotaGroupMax plugin args, both switch settings.
+func TestVerifC03Default(t *testing.T) {
+	h := vOpen("C03")
+	if h == nil {
+		t.Skip("VERIF_OUT not set")
+	}
+	n := h.N(32, 300)
+	const batch = 40
+	for base := 0; base < n; base += batch {
+		t.Run(fmt.Sprintf("batch%d", base), func(t *testing.T) {
+			for idx := base; idx < base+batch && idx < n; idx++ {
+				c03DefaultCase(t, h, idx)
+			}
+		})
+	}
+	c03Names = nil
+	h.Close("one history per case over the default (group 1) and system (group 2) quota with finite max plugin args (no min): <=10 pods " +
+		"(quota label naming a missing group / no label / the default quota's name / the system quota's name), 40 events: PreFilter, Reserve of the " +
+		"admitted pod, Unreserve, OnPodDelete, OnPodAdd; switches = case index mod 4; non-trivial = at least one admitted attempt; distinct by op lines")
+}
+
+func c03DefaultCase(t *testing.T, h *vHarness, idx int) {
+	r := h.Begin(idx)
+	if r == nil {
+		return
+	}
+	defer h.End()
+	c03Names = map[int]string{1: extension.DefaultQuotaName, 2: extension.SystemQuotaName}
+	full := [c03D]bool{true, true, true}
+	dmax := c03RL{has: full, v: [c03D]int64{int64(r.Range(2, 12)) * 500, int64(r.Range(2, 12)), int64(r.Range(0, 3))}}
+	smax := c03RL{has: full, v: [c03D]int64{int64(r.Range(2, 12)) * 500, int64(r.Range(2, 12)), int64(r.Range(0, 3))}}
+	if r.Chance(1, 4) {
+		dmax.has[2] = false // a max that lacks a dimension
+	}
+	suit := newPluginTestSuit(t, nil, func(a *config.ElasticQuotaArgs) {
+		a.DefaultQuotaGroupMax = dmax.list()
+		a.SystemQuotaGroupMax = smax.list()
+	})
+	var lvl klog.Level
+	_ = lvl.Set("0")
+	// the fixture's framework already built a plugin instance with default args, which left its default/system
+	// quota objects in the fake client; drop them so that this instance starts from its own args
+	ns := suit.elasticQuotaArgs.QuotaGroupNamespace
+	for _, name := range []string{extension.DefaultQuotaName, extension.SystemQuotaName, extension.RootQuotaName} {
+		_ = suit.client.SchedulingV1alpha1().ElasticQuotas(ns).Delete(context.TODO(), name, metav1.DeleteOptions{})
+	}
+	gp := suit.createPlugin(t).(*Plugin)
+	w := &c03World{t: t, h: h, gp: gp, cfgRT: idx&1 == 1, cfgCP: idx&2 == 2, quotas: map[int]*c03Quota{}, pods: map[int]*c03Pod{},
+		special: map[int]bool{1: true, 2: true}, closedLoop: true}
+	gp.pluginArgs.EnableRuntimeQuota = w.cfgRT
+	gp.pluginArgs.EnableCheckParentQuota = w.cfgCP
+	h.Tag(fmt.Sprintf("switches:rt%d-cp%d", vB(w.cfgRT), vB(w.cfgCP)))
+	h.Op("dims %d", c03D)
+	for id, mx := range map[int]c03RL{1: dmax, 2: smax} {
+		got := c03FromList(gp.groupQuotaManager.GetQuotaInfoByName(c03QName(id)).GetMax())
+		if got != mx {
+			t.Fatalf("fixture: %s max is %v, want %v", c03QName(id), got, mx)
+		}
+		gotMin := c03FromList(gp.groupQuotaManager.GetQuotaInfoByName(c03QName(id)).GetMin())
+		if gotMin != (c03RL{}) {
+			t.Fatalf("fixture: %s has a min %v", c03QName(id), gotMin)
+		}
+	}
+	for _, id := range []int{1, 2} {
+		mx := dmax
+		if id == 2 {
+			mx = smax
+		}
+		w.quotas[id] = &c03Quota{id: id, max: mx, added: true, lent: true}
+		w.order = append(w.order, id)
+		// the two quotas exist from NewGroupQuotaManager on; the op only tells the model their max
+		h.Op("quota %d 0 %s %s", id, mx.toks(), c03RL{}.toks())
+		w.dump()
+	}
+	nextPod, pending, admitted := 1, 0, 0
+	pick := func(pred func(*c03Pod) bool) *c03Pod {
+		var ids []int
+		for id, p := range w.pods {
+			if pred(p) {
+				ids = append(ids, id)
+			}
+		}
+		if len(ids) == 0 {
+			return nil
+		}
+		sort.Ints(ids)
+		return w.pods[ids[r.Intn(len(ids))]]
+	}
+	for step := 0; step < 40; step++ {
+		k := r.Intn(100)
+		switch {
+		case pending != 0 && k < 75:
+			p := w.pods[pending]
+			pending = 0
+			h.Op("res %d", p.id)
+			st := gp.Reserve(context.TODO(), framework.NewCycleState(), p.obj, "n1")
+			if !st.IsSuccess() {
+				h.Fail("C03:reserve-failed", "Reserve returned %v", st.Code())
+			}
+			if p.inCache {
+				p.assigned = true
+			}
+			w.dump()
+		case k < 50:
+			p := pick(func(p *c03Pod) bool { return p.inCache && !p.assigned })
+			if (p == nil || r.Chance(1, 3)) && len(w.pods) < 10 {
+				p = &c03Pod{id: nextPod, quota: 1, np: r.Chance(1, 4), req: c03GenReq(r), labelKind: r.Range(0, 2)}
+				if r.Chance(1, 4) {
+					p.quota, p.labelKind = 2, 0
+				}
+				nextPod++
+				p.obj = c03MakePod(r, p)
+				w.pods[p.id] = p
+				h.Op("poddef %d %d %d %s", p.id, p.quota, vB(p.np), p.req.toks())
+				w.dump()
+				h.Op("podadd %d", p.id)
+				gp.OnPodAdd(p.obj)
+				p.inCache = true
+				w.dump()
+				h.Tag(fmt.Sprintf("pod-label-kind:%d-quota%d", p.labelKind, p.quota))
+			}
+			if p == nil {
+				continue
+			}
+			pending = 0
+			if w.attempt(p) {
+				admitted++
+				pending = p.id
+			}
+		case k < 65:
+			if p := pick(func(p *c03Pod) bool { return p.assigned }); p != nil {
+				h.Op("unres %d", p.id)
+				gp.Unreserve(context.TODO(), framework.NewCycleState(), p.obj, "n1")
+				p.assigned = false
+				if p.id == pending {
+					pending = 0
+				}
+				w.dump()
+			}
+		case k < 80:
+			if p := pick(func(p *c03Pod) bool { return p.inCache }); p != nil {
+				h.Op("del %d", p.id)
+				gp.OnPodDelete(p.obj)
+				p.inCache, p.assigned = false, false
+				if p.id == pending {
+					pending = 0
+				}
+				w.dump()
+			}
+		default:
+			if p := pick(func(p *c03Pod) bool { return !p.inCache }); p != nil {
+				h.Op("podadd %d", p.id)
+				gp.OnPodAdd(p.obj)
+				p.inCache = true
+				w.dump()
+			}
+		}
+	}
+	if admitted > 0 {
+		h.Nontrivial()
+	}
 }
